@@ -6,6 +6,16 @@ HERE = os.path.dirname(os.path.dirname(os.path.abspath(__file__)))
 
 # id -> (level category, level text, level note, technique, design ref)
 BUILT = {
+ "C01": ("exploration",
+         "Tens of thousands (quick) to a million (thorough) generated source programs are lowered to registries exactly as scale-info does (model self-checked against real scale-info at every run), generated with varied settings and random registry order, and for EVERY type id the type the generator names is interpreted inside the parsed output and compared with the registry type by coinductive SCALE-shape equality. Exploration is the right level: the property quantifies over all registries; no finite model exists, so breadth of generated type graphs with an exact oracle is what is attainable.",
+         "Trusts the harness' table of std/scale-info shapes for external paths, the lowering model (validated against scale-info 2.11.5 on a corpus of real derives each run) and syn. Coincidental (non-CF) programs are discarded and counted. Substitute targets are assumed wire-faithful.",
+         "proptest-driven tape generator of source programs + differential oracle (registry shape vs interpreted generated items, coinductive bisimulation)",
+         "DESIGN.md sections 3, 4.2, 5 C01"),
+ "C03": ("exploration",
+         "Bounded-exhaustive enumeration of the catalogue of same-path families (Appendix B: all ordered pairs of members over small parameter lists, field terms and arguments, both registry orders; level 0 complete and level 1 strided in the quick tier, level 1 complete and level 2 strided in the thorough tier) plus random programs with associated-type and two-version definitions; oracle: generation succeeds only if every member is wire-faithfully represented by the kept item, and after ensure_unique_type_paths generation succeeds and the same holds.",
+         "Uses the C01 shape oracle; coincidental families are skipped and counted; the known finding dedup:renamed-path-collides is excluded by construction from part (b) and covered by its probe.",
+         "bounded-exhaustive family enumeration + proptest-driven random families against the property-shaped shape oracle",
+         "DESIGN.md section 5 C03, Appendix B"),
  "C15": ("exploration",
          "Bounded-exhaustive enumeration of all strings over the 9-character bracket alphabet up to length 7 (quick) / 9 (thorough) plus tape-driven random hostile strings and properly nested strings around the 32-character look-ahead, each checked against a whitespace-only relation and an indentation depth model; every description produced by the C13 check is also fed through it. Exploration is the right level: the function is total over strings, cheap, and its only state is a depth counter, so small-scope exhaustiveness plus boundary-directed generation covers its decision structure.",
          "Trusts the harness' depth model (validated against the unchanged formatter on the exhaustive stratum) and Rust's char::is_whitespace. The small/large scope decision is not constrained.",
